@@ -333,7 +333,9 @@ func (p *c19) Run(tier string, seed int64, idx int) core.CaseResult {
 		break
 	}
 	// ---- fuzz
-	encOf := func(i int) encoding.EncType { return []encoding.EncType{encoding.RFC7951, encoding.JSON, encoding.XML}[i%3] }
+	encOf := func(i int) encoding.EncType {
+		return []encoding.EncType{encoding.RFC7951, encoding.JSON, encoding.XML}[i%3]
+	}
 	fuzzOne := func(enc encoding.EncType, in []byte, kind string) {
 		res.Ev("fuzz_inputs", 1)
 		res.Key(fmt.Sprintf("%d|%s", enc, in))
@@ -422,14 +424,22 @@ func (p *c19) Run(tier string, seed int64, idx int) core.CaseResult {
 			closer := []string{"]", "}", "</a>"}[oi]
 			// a well-formed document: the nesting is closed again
 			deep := strings.Repeat(open, 5000000) + []string{"", "1", ""}[oi] + strings.Repeat(closer, 5000000)
-			for _, enc := range []encoding.EncType{encoding.RFC7951, encoding.JSON, encoding.XML} {
-				res.Ev("fuzz_inputs", 1)
-				res.Ev("deep_nesting_inputs", 1)
-				tree, err, pmsg, stack := c19Decode(ms, enc, []byte(deep), true)
-				if pmsg != "" {
-					res.Fail("C19/decode-panic/"+encNames[enc]+"/"+core.TopRepoFrame(stack), "5,000,000 x "+open+" for the "+encNames[enc]+" decoder", pmsg)
-				} else if err == nil && tree != nil {
-					res.Fail("C19/decoded-tree-does-not-conform/"+encNames[enc], "5,000,000 x "+open, "a document that is nothing but nesting decoded to a tree")
+			docs := []string{deep}
+			if oi == 0 {
+				// the nesting stands behind strings that end in an escaped backslash or hold escaped quotes and
+				// brackets: whoever measures the depth must read strings as JSON does
+				docs = append(docs, `["C:\\",`+deep+`]`, `["a\\\"[[[", "]]]\\",`+deep+`]`, `{"k\\":"v\\","d":`+deep+`}`)
+			}
+			for _, deep := range docs {
+				for _, enc := range []encoding.EncType{encoding.RFC7951, encoding.JSON, encoding.XML} {
+					res.Ev("fuzz_inputs", 1)
+					res.Ev("deep_nesting_inputs", 1)
+					tree, err, pmsg, stack := c19Decode(ms, enc, []byte(deep), true)
+					if pmsg != "" {
+						res.Fail("C19/decode-panic/"+encNames[enc]+"/"+core.TopRepoFrame(stack), "5,000,000 x "+open+" for the "+encNames[enc]+" decoder", pmsg)
+					} else if err == nil && tree != nil {
+						res.Fail("C19/decoded-tree-does-not-conform/"+encNames[enc], "5,000,000 x "+open, "a document that is nothing but nesting decoded to a tree")
+					}
 				}
 			}
 		}
